@@ -9,84 +9,17 @@ from .. import gen
 
 class C02Episode(Episode):
     def setup(self):
-        if self.cfg.get('sockets'):
-            self.setup_with_sockets()
-        else:
-            super().setup()
+        super().setup()
         self.post_setup()
 
-    def setup_with_sockets(self):
-        """on-demand watchers need real listening sockets: the arbiter
-        select()s on them in its periodic check"""
-        import os
-        from circus.sockets import CircusSocket
-        from ..world import World
-        self.world = World(self.cfg)
-        d = self.world.scratch_dir()
-        self.lsocks = []
-        for i, sc in enumerate(self.cfg['sockets']):
-            self.lsocks.append(CircusSocket(name=sc['name'], path=os.path.join(
-                d, 's%d.sock' % i)))
-        ws = [self.world.make_watcher(wc) for wc in self.cfg['watchers']]
-        self.world.build(watchers=ws, sockets=self.lsocks)
-
-    def op_connect(self, i, op):
-        """a client connects to a managed socket (socket event)"""
-        import socket as _socket
-
-        def fire():
-            if not getattr(self, 'lsocks', None):
-                return
-            s = self.lsocks[op.get('s', 0) % len(self.lsocks)]
-            try:
-                c = _socket.socket(_socket.AF_UNIX, _socket.SOCK_STREAM)
-                c.setblocking(False)
-                try:
-                    c.connect(s.path)
-                except BlockingIOError:
-                    pass
-                self.clients.append(c)
-                self.fired['socket_event'] += 1
-                # a socket event reaches every on-demand watcher
-                for wc in self.cfg['watchers']:
-                    if wc['opts'].get('on_demand'):
-                        self.stopped_markers.pop(wc.get('marker', wc['name']),
-                                                 None)
-                self.pending_conn = True
-            except OSError:
-                pass
-        self.place(op.get('place'), fire, 'op')
-
-    def accept_pending(self):
-        """the freshly spawned on-demand worker accepts what is queued"""
-        for s in getattr(self, 'lsocks', []):
-            while True:
-                try:
-                    s.setblocking(False)
-                    conn, _ = s.accept()
-                    conn.close()
-                except (BlockingIOError, OSError):
-                    break
-        self.pending_conn = False
-
-    def collect(self):
-        super().collect()
-        import socket as _socket
-        for c in getattr(self, 'clients', []):
-            try:
-                c.close()
-            except Exception:
-                pass
-        for s in getattr(self, 'lsocks', []):
-            try:
-                _socket.socket.close(s)
-            except Exception:
-                pass
+    def socket_event(self, op):
+        # a socket event reaches every on-demand watcher
+        for wc in self.cfg['watchers']:
+            if wc['opts'].get('on_demand'):
+                self.stopped_markers.pop(wc.get('marker', wc['name']), None)
 
     def post_setup(self):
         w = self.world
-        self.clients = []
-        self.pending_conn = False
         self.stopped_markers = {}     # marker -> request idx that stopped it
         self.completions = 0
         self.probe_reqs = []          # (kind, wname, Req, stop Req)
@@ -97,9 +30,6 @@ class C02Episode(Episode):
                                 for wc in self.cfg['watchers'])
         self.removed = set()
         self.nostop_markers = set()
-        self.ondemand_markers = set(
-            wc.get('marker', wc['name']) for wc in self.cfg['watchers']
-            if wc['opts'].get('on_demand'))
 
     # a start-class request reaching the daemon lifts the 'stays stopped' claim
     def op_req(self, i, op):
@@ -130,8 +60,7 @@ class C02Episode(Episode):
 
     def on_spawn(self, p):
         m = p.marker
-        if m in self.ondemand_markers:
-            self.accept_pending()
+        self.accept_for(p)
         if m in self.stopped_markers:
             self.viol('spawn_while_stopped',
                       'worker %d spawned for watcher %s although it was '
